@@ -3,12 +3,20 @@
 //           Record(set i) (L+2 distinct attribute sets, up to symmetry of the set names) and Collect(collector j)
 //           for collector configurations {delta}, {cumulative}, {delta,cumulative}; every record carries a
 //           unique bit so that the reported series identify exactly which measurements they contain.
+//           Second alphabet (depth d-1): additionally Record WITHOUT attributes (RecordLong(value, ctx), the
+//           GetOrSetDefault(const MetricAttributes&) path; the empty set is one more distinct set).  With the
+//           single delta collector additionally a FilteringAttributesProcessor{k} configuration whose records
+//           carry {k=i, noise=<unique>}: sets that collapse after the filter count once.
 //   part 1: MeterProvider + counter with the default limit (2000): 1999 / 2001 distinct sets in one cycle,
 //           2 x 1100 and 2 x 2001 over two cycles, two readers with two pending interval tables.
+//   part 2: AttributesHashMap(L) directly, L in {1,2,3}: every sequence of depth d over (attribute set, one of
+//           the three GetOrSetDefault and three Set overloads); after every call the table is compared with the
+//           table before the call: only the entry the call addresses may change.
 // Oracle after every Collect: number of series <= limit; every series is a recorded set or the
-// otel.metrics.overflow=true series; a regular series holds only measurements of its own set; the total over
-// all series equals everything recorded in scope (delta: since that collector's previous collection,
-// cumulative: since start); no overflow series while fewer than `limit` distinct sets occurred.
+// otel.metrics.overflow=true series; a regular series holds only measurements of its own set - and ALL of them
+// when the measurements in scope were recorded into one interval table; the total over all series equals
+// everything recorded in scope (delta: since that collector's previous collection, cumulative: since start);
+// no overflow series while fewer than `limit` distinct sets occurred.
 #include <map>
 #include <set>
 
@@ -39,11 +47,13 @@ using opentelemetry::common::AttributeValue;
 
 namespace {
 
-int g_depth = 8;
+int g_depth = 8, g_edepth = 7, g_tdepth = 4;
 
-constexpr int kOverflow = -1, kUnknown = -2;
-// attribute sets are {"k": int32 id}; returns the id, kOverflow for the overflow set, kUnknown otherwise
+constexpr int kOverflow = -1, kUnknown = -2, kEmpty = -3;
+// attribute sets are {"k": int32 id} or {}; returns the id, kEmpty for the empty set, kOverflow for the overflow
+// set, kUnknown otherwise
 int set_id(const sm::PointAttributes &a) {
+  if (a.size() == 0) return kEmpty;
   if (a.size() != 1) return kUnknown;
   auto &kv = *a.begin();
   if (kv.first == "k" && nostd::holds_alternative<int32_t>(kv.second)) return nostd::get<int32_t>(kv.second);
@@ -67,16 +77,20 @@ std::string show_points(std::vector<Point> pts, bool bits) {
   size_t shown = 0;
   for (auto &p : pts) {
     if (++shown > 12) { s += vf::sfmt("... (%zu series)", pts.size()); break; }
-    s += (p.id == kOverflow ? std::string("overflow") : p.id == kUnknown ? std::string("?") : vf::sfmt("s%d", p.id)) + (bits ? vf::sfmt("=0x%llx ", (unsigned long long)p.value) : vf::sfmt("=%lld ", (long long)p.value));
+    s += (p.id == kOverflow ? std::string("overflow") : p.id == kUnknown ? std::string("?") : p.id == kEmpty ? std::string("{}") : vf::sfmt("s%d", p.id)) + (bits ? vf::sfmt("=0x%llx ", (unsigned long long)p.value) : vf::sfmt("=%lld ", (long long)p.value));
   }
   return s;
 }
 
-struct Rec { int set; int64_t value; };
+struct Rec { int set; int64_t value; int epoch = 0; };  // epoch: number of collections (by any collector) before the record
+std::string set_name(int id) { return id == kEmpty ? std::string("{}") : id == kOverflow ? std::string("overflow") : vf::sfmt("s%d", id); }
 
 // The oracle.  `scope` = the measurements this collection has to account for, `ever` = all sets recorded so far.
 void check_collection(vf::Ctx &c, const std::vector<Point> &got, const std::vector<Rec> &scope, const std::set<int> &ever, size_t limit, bool cumulative,
                       bool first_interval, bool subset_by_bits, const std::string &hist) {
+  // all measurements in scope went into the same interval table (no collection by any collector in between)
+  bool single_table = true;
+  for (auto &r : scope) single_table &= (r.epoch == scope.front().epoch);
   const char *temp = cumulative ? "cumulative" : "delta";
   std::string tail = vf::sfmt("; limit %zu, %s collector; history: ", limit, temp) + hist + " => " + show_points(got, subset_by_bits);
   CHECK(c, got.size() <= limit, vf::sfmt("C08:limit:series-count:%s:%s-interval", temp, first_interval ? "first" : "later"),
@@ -87,15 +101,25 @@ void check_collection(vf::Ctx &c, const std::vector<Point> &got, const std::vect
   std::set<int> seen;
   int64_t sum = 0;
   bool has_overflow = false;
+  // first what the series are, then what they hold
   for (auto &p : got) {
     CHECK(c, p.id != kUnknown && (p.id == kOverflow || ever.count(p.id)), "C08:series:unknown-attributes", "a series with attributes that were never recorded is reported" + tail);
     CHECK(c, seen.insert(p.id).second, "C08:series:duplicate", "two reported series carry the same attribute set" + tail);
     CHECK(c, p.value != INT64_MIN, "C08:series:point-type", "a counter series is not an int64 sum" + tail);
+  }
+  for (auto &p : got) {
     sum += p.value;
     if (p.id == kOverflow) { has_overflow = true; continue; }
     int64_t w = want.count(p.id) ? want[p.id] : 0;
     bool own = subset_by_bits ? ((p.value & ~w) == 0) : (p.value >= 0 && p.value <= w);
-    CHECK(c, own, "C08:series:foreign-measurements", vf::sfmt("series s%d holds measurements that were not recorded with its attribute set in this scope", p.id) + tail);
+    CHECK(c, own, "C08:series:foreign-measurements", "series " + set_name(p.id) + " holds measurements that were not recorded with its attribute set in this scope" + tail);
+    // exact partition: when everything in scope was recorded into ONE interval table, a set that has its own
+    // series has all its measurements there - only the excess sets are folded into the overflow series
+    if (single_table)
+      CHECK(c, p.value == w, vf::sfmt("C08:overflow:measurements-of-a-set-with-own-series-diverted:%s", temp),
+            "series " + set_name(p.id) + (subset_by_bits ? vf::sfmt(" reports 0x%llx but 0x%llx was recorded with its attribute set", (unsigned long long)p.value, (unsigned long long)w)
+                                                           : vf::sfmt(" reports %lld but %lld was recorded with its attribute set", (long long)p.value, (long long)w)) +
+                " in this one interval (the rest sits in the overflow series although the set has a series of its own)" + tail);
   }
   if (sum != total) {
     // distinguishing feature: every regular series is complete, so what is missing was folded into the overflow
@@ -108,7 +132,7 @@ void check_collection(vf::Ctx &c, const std::vector<Point> &got, const std::vect
   }
   if (want.size() < limit) {
     CHECK(c, !has_overflow, vf::sfmt("C08:overflow:premature:%s", temp), vf::sfmt("an overflow series is reported although only %zu distinct sets occurred", want.size()) + tail);
-    for (auto &w : want) CHECK(c, seen.count(w.first), vf::sfmt("C08:series:missing:%s", temp), vf::sfmt("set s%d has no series although the limit is not reached", w.first) + tail);
+    for (auto &w : want) CHECK(c, seen.count(w.first), vf::sfmt("C08:series:missing:%s", temp), "set " + set_name(w.first) + " has no series although the limit is not reached" + tail);
   }
 }
 
@@ -137,12 +161,21 @@ void run_small(vf::Ctx &c) {
   size_t L = 1 + (size_t)c.pick("limit", 4);
   static const std::vector<std::vector<int>> kCols = {{0}, {1}, {0, 1}};  // 0 = delta, 1 = cumulative
   const std::vector<int> &ct = kCols[c.pick("collectors", 3)];
+  // alphabet 0: Record(set i) with attributes only, depth g_depth; alphabet 1: additionally Record without
+  // attributes (the empty set, through the attribute-less overload), depth g_edepth
+  bool with_empty = c.pick("alphabet", 2) == 1;
+  int depth = with_empty ? g_edepth : g_depth;
+  // the filter only matters where measurements enter the interval table: single delta collector only
+  bool filtered = (ct.size() == 1 && ct[0] == 0) ? c.pick("processor", 2) == 1 : false;
   int nsets = (int)L + 2;
+  c.counted(filtered ? (with_empty ? "hist_filter_attrless" : "hist_filter") : (with_empty ? "hist_attrless" : "hist_sets_only"));
 
   c.stage("setup");
   sm::InstrumentDescriptor desc = {"n", "d", "u", sm::InstrumentType::kCounter, sm::InstrumentValueType::kLong};
-  sm::DefaultAttributesProcessor proc;
-  sm::SyncMetricStorage storage(desc, sm::AggregationType::kSum, &proc, nullptr, L);
+  sm::DefaultAttributesProcessor dflt;
+  sm::FilteringAttributesProcessor only_k(std::unordered_map<std::string, bool>{{"k", true}});
+  const sm::AttributesProcessor *proc = filtered ? static_cast<const sm::AttributesProcessor *>(&only_k) : &dflt;
+  sm::SyncMetricStorage storage(desc, sm::AggregationType::kSum, proc, nullptr, L);
   std::vector<std::shared_ptr<sm::CollectorHandle>> cols;
   for (int t : ct) cols.emplace_back(new Handle(t == 1));
   auto t0 = std::chrono::system_clock::now();
@@ -150,9 +183,9 @@ void run_small(vf::Ctx &c) {
   std::vector<Rec> recs;
   std::set<int> ever;
   std::vector<size_t> last(ct.size(), 0);
-  std::vector<int> ncollects(ct.size(), 0);
+  int total_collects = 0;
   int used = 0;
-  std::string hist;
+  std::string hist = filtered ? "allow{k}:" : "";
   auto do_collect = [&](size_t r) {
     c.stage("Collect");
     std::vector<Point> got;
@@ -162,38 +195,55 @@ void run_small(vf::Ctx &c) {
     bool cumulative = ct[r] == 1;
     std::vector<Rec> scope(recs.begin() + (cumulative ? 0 : last[r]), recs.end());
     // "first interval": no collection of any collector has swapped the interval table before the records in scope
-    bool first = true;
-    for (size_t k = 0; k < ct.size(); ++k) first &= (ncollects[k] == 0);
+    bool first = total_collects == 0;
     last[r] = recs.size();
     check_collection(c, got, scope, ever, L, cumulative, first, true, hist);
-    ncollects[r]++;
+    total_collects++;
     c.trace("after Collect: interval table limit %zu size %zu", storage.attributes_hashmap_->attributes_limit_, storage.attributes_hashmap_->Size());
     c.state(vf::sfmt("L%zu|c%zu|%zu|", L, ct.size(), r) + show_points(got, true) + vf::sfmt("|t%zu", storage.attributes_hashmap_->Size()));
     return got.size();
   };
-  for (int d = 0; d < g_depth; ++d) {
+  for (int d = 0; d < depth; ++d) {
     int nrec = used < nsets ? used + 1 : used;  // symmetry: a new set is always the lowest unused id
-    int op = c.pick("op", nrec + (int)ct.size());
+    int nattrless = with_empty ? 1 : 0;
+    int op = c.pick("op", nrec + nattrless + (int)ct.size());
+    int64_t bit = (int64_t)1 << recs.size();
     if (op < nrec) {
       c.stage("Record");
       int32_t id = op;
       if (op == used) ++used;
+      // with the filter every record carries an additional attribute with a unique value that the view drops
       KVVec kv = {{"k", AttributeValue(id)}};
+      if (filtered) kv.insert(kv.begin() + (recs.size() % 2), KVVec::value_type{"noise", AttributeValue((int32_t)recs.size())});
       opentelemetry::common::KeyValueIterableView<KVVec> it(kv);
-      int64_t bit = (int64_t)1 << recs.size();
       storage.RecordLong(bit, it, opentelemetry::context::Context{});
-      recs.push_back({id, bit});
+      recs.push_back({id, bit, total_collects});
       ever.insert(id);
       hist += vf::sfmt(" R(s%d)", id);
       c.step();
+    } else if (op < nrec + nattrless) {
+      c.stage("Record(no attributes)");
+      // with the filter every other such record takes the attribute overload with a set that is filtered to {}
+      if (filtered && recs.size() % 2 == 1) {
+        KVVec kv = {{"noise", AttributeValue((int32_t)recs.size())}};
+        opentelemetry::common::KeyValueIterableView<KVVec> it(kv);
+        storage.RecordLong(bit, it, opentelemetry::context::Context{});
+        hist += " R({noise})";
+      } else {
+        storage.RecordLong(bit, opentelemetry::context::Context{});
+        hist += " R()";
+      }
+      recs.push_back({kEmpty, bit, total_collects});
+      ever.insert(kEmpty);
+      c.step();
     } else {
-      do_collect((size_t)(op - nrec));
+      do_collect((size_t)(op - nrec - nattrless));
     }
   }
   // final collection by every collector
   std::string fin;
   for (size_t r = 0; r < ct.size(); ++r) fin += vf::sfmt("%zu/", do_collect(r));
-  c.outcome(vf::sfmt("L%zu|c%zu|%d|", L, ct.size(), used) + fin);
+  c.outcome(vf::sfmt("L%zu|c%zu|%d%d|%d|", L, ct.size(), (int)with_empty, (int)filtered, used) + fin);
   static int ns = 0;
   if (ns < 2) { ++ns; c.sample(vf::sfmt("limit %zu:", L) + hist); }
 }
@@ -234,7 +284,7 @@ void run_big(vf::Ctx &c) {
       KVVec kv = {{"k", AttributeValue((int32_t)id)}};
       opentelemetry::common::KeyValueIterableView<KVVec> it(kv);
       counter->Add(1, it, opentelemetry::context::Context{});
-      recs.push_back({id, 1});
+      recs.push_back({id, 1, ncollects});
       ever.insert(id);
       c.step();
     }
@@ -265,13 +315,130 @@ void run_big(vf::Ctx &c) {
   c.sample(hist + " => series(overflow) per collection: " + fin);
 }
 
+// ---------------------------------------------------------------------------------------------
+// part 2: the series table directly, every overload that can add or replace an entry
+// ---------------------------------------------------------------------------------------------
+const char *kOverload[6] = {"GetOrSetDefault(KeyValueIterable,processor,cb)", "GetOrSetDefault(const MetricAttributes&,cb)", "GetOrSetDefault(MetricAttributes&&,cb)",
+                            "Set(KeyValueIterable,processor,agg)", "Set(const MetricAttributes&,agg)", "Set(MetricAttributes&&,agg)"};
+const char *kOverloadTag[6] = {"getorset-iterable", "getorset-const-ref", "getorset-rvalue", "set-iterable", "set-const-ref", "set-rvalue"};
+using TableImage = std::map<int, const sm::Aggregation *>;  // set id -> the aggregation object stored for it
+std::string show_image(const TableImage &m, const std::map<const sm::Aggregation *, int> &names) {
+  std::string s = "{";
+  for (auto &kv : m) {
+    auto n = names.find(kv.second);
+    s += set_name(kv.first) + (n == names.end() ? std::string("->?") : vf::sfmt("->a%d", n->second)) + " ";
+  }
+  return s + "}";
+}
+
+void run_table(vf::Ctx &c) {
+  size_t L = 1 + (size_t)c.pick("limit", 3);
+  int nnamed = (int)L + 1;  // named sets {k=i}; with the empty set L+2 distinct sets
+  c.counted("table_sequences");
+  c.stage("table(setup)");
+  sm::AttributesHashMap table(L);
+  sm::DefaultAttributesProcessor proc;
+  std::map<const sm::Aggregation *, int> names;              // creation order of the aggregation objects (for messages)
+  const sm::Aggregation *last_created = nullptr;
+  int created = 0;
+  auto mkagg = [&]() {
+    std::unique_ptr<sm::Aggregation> a(new sm::LongSumAggregation(true));
+    last_created = a.get();
+    names[a.get()] = created++;
+    return a;
+  };
+  TableImage M;         // the table before the call
+  std::set<int> ever;   // distinct sets offered so far
+  int used = 0;
+  std::string hist = vf::sfmt("AttributesHashMap(%zu):", L);
+  for (int d = 0; d < g_tdepth; ++d) {
+    int nset = used < nnamed ? used + 1 : used;  // symmetry: a new named set is always the lowest unused id
+    int si = c.pick("set", nset + 1);            // the last alternative is the empty set
+    int ov = c.pick("overload", 6);
+    int id = si < nset ? si : kEmpty;
+    if (si == used && si < nset) ++used;
+    ever.insert(id);
+    KVVec kv;
+    if (id != kEmpty) kv.push_back({"k", AttributeValue((int32_t)id)});
+    opentelemetry::common::KeyValueIterableView<KVVec> it(kv);
+    sm::MetricAttributes key(it), arg(it);
+    hist += " " + std::string(kOverloadTag[ov]) + "(" + set_name(id) + ")";
+    std::string tag = kOverloadTag[ov];
+    c.stage(kOverload[ov]);
+    const sm::Aggregation *ret = nullptr;   // GetOrSetDefault: what it returned; Set: the aggregation handed in
+    last_created = nullptr;
+    bool is_set = ov >= 3;
+    switch (ov) {
+      case 0: ret = table.GetOrSetDefault(it, &proc, mkagg); break;
+      case 1: ret = table.GetOrSetDefault(arg, mkagg); break;
+      case 2: ret = table.GetOrSetDefault(std::move(arg), mkagg); break;
+      case 3: { auto a = mkagg(); ret = a.get(); table.Set(it, &proc, std::move(a)); break; }
+      case 4: { auto a = mkagg(); ret = a.get(); table.Set(arg, std::move(a)); break; }
+      default: { auto a = mkagg(); ret = a.get(); table.Set(std::move(arg), std::move(a)); break; }
+    }
+    c.step();
+    // the table after the call
+    c.stage("table(observe)");
+    TableImage P;
+    bool dup = false, unknown = false;
+    size_t entries = 0;
+    table.GetAllEnteries([&](const sm::MetricAttributes &a, sm::Aggregation &g) {
+      int k = set_id(a);
+      ++entries;
+      unknown |= (k == kUnknown || (k != kOverflow && !ever.count(k)));
+      dup |= !P.emplace(k, &g).second;
+      return true;
+    });
+    auto tail_fn = [&] { return "; " + hist + ": table before " + show_image(M, names) + ", after " + show_image(P, names); };
+#define tail tail_fn()
+    CHECK(c, entries == table.Size(), "C08:table:size-differs-from-entries", vf::sfmt("Size() = %zu, %zu entries enumerated", table.Size(), entries) + tail);
+    CHECK(c, !unknown, "C08:table:unknown-attributes:" + tag, "the table holds an attribute set that was never offered" + tail);
+    CHECK(c, !dup, "C08:table:duplicate-entry:" + tag, "two entries carry the same attribute set" + tail);
+    CHECK(c, entries <= L, "C08:table:size-exceeds-limit:" + tag, vf::sfmt("%zu entries with cardinality limit %zu", entries, L) + tail);
+    CHECK(c, ret != nullptr, "C08:table:null-series:" + tag, "no aggregation returned" + tail);
+    // which entry did the call address?
+    int addressed;
+    if (M.count(id)) {
+      // the set has an entry: that one, never the overflow entry
+      addressed = id;
+      if (!is_set) CHECK(c, ret == M[id], "C08:table:existing-series-not-returned:" + tag, "the set " + set_name(id) + " has a series but a different one is returned" + tail);
+    } else if (P.count(id) && P[id] == ret) {
+      addressed = id;   // inserted under its own attributes
+      if (!is_set) CHECK(c, ret == last_created, "C08:table:new-series-not-fresh:" + tag, "a new entry shares its aggregation with another one" + tail);
+    } else {
+      addressed = kOverflow;  // folded
+      CHECK(c, !P.count(id), "C08:table:wrong-series-returned:" + tag, "the set " + set_name(id) + " was inserted but another series is returned" + tail);
+      CHECK(c, P.count(kOverflow) && P[kOverflow] == ret, "C08:table:measurement-without-series:" + tag,
+            "the aggregation for " + set_name(id) + " is neither stored under its own attributes nor under otel.metrics.overflow" + tail);
+      if (!is_set) CHECK(c, M.count(kOverflow) ? ret == M[kOverflow] : ret == last_created, "C08:table:overflow-series-replaced:" + tag, "GetOrSetDefault replaced the overflow entry instead of returning it" + tail);
+      CHECK(c, ever.size() >= L, "C08:table:premature-overflow:" + tag, vf::sfmt("folded into the overflow entry although only %zu distinct sets were offered", ever.size()) + tail);
+    }
+    // nothing else may change
+    TableImage expect = M;
+    expect[addressed] = ret;
+    CHECK(c, P == expect, "C08:table:other-entry-changed:" + tag, "an entry the call does not address was added, removed or replaced" + tail);
+    // lookups agree with the enumeration
+    CHECK(c, table.Get(key) == (P.count(id) ? P[id] : nullptr) && table.Has(key) == (P.count(id) > 0), "C08:table:lookup-differs-from-entries:" + tag, "Get/Has(" + set_name(id) + ") disagree with the enumerated entries" + tail);
+#undef tail
+    M = P;
+    c.state(vf::sfmt("T%zu|", L) + show_image(P, names));
+  }
+  std::string fin;
+  for (auto &kv : M) fin += set_name(kv.first) + ",";
+  c.outcome(vf::sfmt("T%zu|", L) + fin);
+  static int ns = 0;
+  if (ns < 1) { ++ns; c.sample(hist + " => " + show_image(M, names)); }
+}
+
 void run(vf::Ctx &c) {
   vf::clock_reset();
   vf::clock_set_autostep_ns(1000);
   static bool quiet = (sc::internal_log::GlobalLogHandler::SetLogLevel(sc::internal_log::LogLevel::None), true);
   (void)quiet;
-  if (c.pick("part", 2) == 0) run_small(c);
-  else run_big(c);
+  int part = c.pick("part", 3);
+  if (part == 0) run_small(c);
+  else if (part == 1) run_big(c);
+  else run_table(c);
 }
 
 void setup(vf::Options &o) {
@@ -279,6 +446,8 @@ void setup(vf::Options &o) {
   o.deadline_s = o.thorough ? 1200 : 150;
   o.table_bits = 24;
   g_depth = atoi(o.get("depth", o.thorough ? "9" : "8").c_str());
+  g_edepth = atoi(o.get("edepth", o.thorough ? "8" : "7").c_str());
+  g_tdepth = atoi(o.get("tdepth", o.thorough ? "5" : "4").c_str());
 }
 
 }  // namespace
